@@ -593,7 +593,7 @@ def r1b(ctx: RuleCtx) -> None:
     for c in di_calls:
         a_ = bind_args(c, dif).get(param(dif, 0, 'do_install'))
         if a_ is not None:
-            loaded |= set(const_strs(_inline(rloc, a_)))
+            loaded |= set(_const_strings(ctx, imod, _inline(rloc, a_)))      # a literal or a module constant holding it
     ok = bool(di_calls) and len(loaded) == 1 and len(files) == 1 and next(iter(loaded)).split('/')[-1] == files[0]
     judge(ctx, ok, f'minstall.run installs from {sorted(loaded)} — the file {qn} writes', len(loaded) == 1 and len(files) == 1, imod, 'run', run,
           f'`meson install` loads {sorted(loaded)} but the backend writes {files}')
@@ -610,14 +610,30 @@ def r1b(ctx: RuleCtx) -> None:
         fq = fn.name
         pb, pk = param(fn, 1, fq), param(fn, 2, fq)
         var, calls = _install_source(ctx, fn, fq, pk)
-        ok = len(calls) == 1 and recv(calls[0]) == pk and not calls[0].args and var is not None and len(Locals(fn).defs.get(var, [])) == 1
+        scope: FuncNode = fn
+        if var is None and len(calls) == 1 and recv(calls[0]) == pk and not calls[0].args:
+            # the install data is handed straight to a function / to the constructor of a class of this module (a method object):
+            # the parameter that receives it is the variable, the callee the scope in which its lists are read
+            for oc in ast.walk(fn):
+                if isinstance(oc, ast.Call) and isinstance(oc.func, ast.Name) and (calls[0] in oc.args or any(k.value is calls[0] for k in oc.keywords)):
+                    cal = mod.func(oc.func.id) if mod.has_func(oc.func.id) else (mod.func(f'{oc.func.id}.__init__') if mod.has_func(f'{oc.func.id}.__init__') else None)
+                    if cal is None or any(isinstance(x, (ast.Yield, ast.YieldFrom)) for x in ast.walk(cal)):
+                        continue
+                    try:
+                        bound_ = bind_args(oc, cal)
+                    except Undecided:
+                        continue
+                    ps_ = [k for k, v in bound_.items() if v is calls[0]]
+                    if len(ps_) == 1 and not Locals(cal).defs.get(ps_[0]):
+                        var, scope = ps_[0], cal
+        ok = len(calls) == 1 and recv(calls[0]) == pk and not calls[0].args and var is not None and (scope is not fn or len(Locals(fn).defs.get(var, [])) == 1)
         judge(ctx, ok, f'intro-{kind}.json: {fq} takes the install data from {pk}.create_install_data()', len(calls) > 1, mod, fq, calls[0] if calls else fn,
               f'{fq} calls create_install_data() {len(calls)} times: the entries come from different InstallData objects than the one pickled')
         if not ok:
             continue
         # every InstallData list that is iterated is a field of that object
         lists = _install_lists(ctx)
-        for a in ast.walk(fn):
+        for a in ([x for x in ast.walk(fn)] + ([x for x in ast.walk(scope)] if scope is not fn else [])):
             if isinstance(a, ast.Attribute) and a.attr in lists and isinstance(a.ctx, ast.Load):
                 base = a.value
                 if isinstance(base, ast.Name) and base.id != var and base.id not in (pb, pk) and not is_call_on(Locals(fn).resolve(base), pk, 'create_install_data'):
@@ -785,6 +801,8 @@ def r1c(ctx: RuleCtx) -> None:
     # ids: Build.targets is keyed by get_id()
     imod = ctx.repo.module(INTERP)
     at = imod.func('Interpreter.add_target')
+    if not any(isinstance(n, ast.Subscript) and attr_chain(n.value) == 'self.build.targets' and isinstance(n.ctx, ast.Store) for n in ast.walk(at)):
+        at = normal_func(imod, 'Interpreter.add_target', inline=2)     # the registration sits in a private helper: read it in place
     st = [n for n in ast.walk(at) if isinstance(n, ast.Assign) and isinstance(n.targets[0], ast.Subscript) and attr_chain(n.targets[0].value) == 'self.build.targets']
     kk = _key_is_target_id(at, st[0].targets[0].slice) if len(st) == 1 else None  # type: ignore[attr-defined]
     ok = kk is True and norm(st[0].value) == recv(Locals(at).resolve(st[0].targets[0].slice))  # type: ignore[arg-type,attr-defined]
@@ -1715,8 +1733,15 @@ def r2d(ctx: RuleCtx) -> None:
     sig = [st.target.id for st in bmod.cls('InstallDataBase').body if isinstance(st, ast.AnnAssign) and isinstance(st.target, ast.Name)]
     if sig[:3] != ['path', 'install_path', 'install_path_name'] or params(bmod.func('SubdirInstallData.__init__'))[:3] != sig[:3]:
         raise Undecided(f'InstallDataBase/SubdirInstallData field order changed: {sig[:3]}')
-    producers = sorted(n for n, f in bmod.methods('Backend').items() if n.startswith('generate_') and n.endswith('_install')
-                       and any(isinstance(c, ast.Call) and call_method(c) in INSTALL_CTORS for c in ast.walk(f)))
+    def _has_ctor(n_: str, f_: FuncNode) -> bool:
+        if any(isinstance(c, ast.Call) and call_method(c) in INSTALL_CTORS for c in ast.walk(f_)):
+            return True
+        # the constructor may sit in a private helper / generator of the class: look at the normal form (helpers read in place)
+        if any(isinstance(c, ast.Call) and recv(c) == 'self' and (call_method(c) or '').startswith('_') for c in ast.walk(f_)):
+            nf = normal_func(bmod, f'Backend.{n_}', fn=f_)
+            return any(isinstance(c, ast.Call) and call_method(c) in INSTALL_CTORS for c in ast.walk(nf))
+        return False
+    producers = sorted(n for n, f in bmod.methods('Backend').items() if n.startswith('generate_') and n.endswith('_install') and _has_ctor(n, f))
     ctx.floor('producers of InstallDataBase/SubdirInstallData entries', len(producers), 5)
     n_ctor = 0
     roots_all: T.List[T.Tuple[str, str]] = []
@@ -1850,20 +1875,58 @@ ELEMENT_FEEDERS = {'add_dep', 'add_orderdep'}
 FILL = {'append', 'extend', 'add', 'insert'}
 
 
-def _builds_element_from(ctx: RuleCtx, meth: str, index: int) -> bool:
-    """self.<meth>(...) hands its index-th positional argument to a NinjaBuildElement (one level)."""
+def _element_factory(ctx: RuleCtx, meth: str, depth: int = 2) -> bool:
+    """self.<meth>(...) is a statement factory: every value it returns is a NinjaBuildElement it constructed (directly, through a
+    local bound only to such constructions, or through another factory of the class)."""
+    memo = ctx.repo.__dict__.setdefault('_c15_factories', {})
+    if meth in memo:
+        return memo[meth]
+    memo[meth] = False
     try:
         _, _, fn = _resolved_method(ctx, meth)
     except Undecided:
         return False
-    ps = params(fn)
-    if index >= len(ps):
+    loc = Locals(fn)
+
+    def is_elem(e: T.Optional[ast.AST], seen: int = 0) -> bool:
+        if isinstance(e, ast.Call):
+            if call_method(e) == 'NinjaBuildElement':
+                return True
+            return recv(e) == 'self' and depth > 0 and bool(call_method(e)) and _element_factory(ctx, call_method(e) or '', depth - 1)
+        if isinstance(e, ast.Name) and seen < 3:
+            ds = loc.defs.get(e.id, [])
+            return bool(ds) and e.id not in params(fn) and all(is_elem(d, seen + 1) for d in ds)
+        return False
+    rets = [r for r in walk_no_nested(fn) if isinstance(r, ast.Return)]
+    memo[meth] = bool(rets) and all(is_elem(r.value) for r in rets)
+    return memo[meth]
+
+
+def _builds_element_from(ctx: RuleCtx, meth: str, index: T.Union[int, str], depth: int = 3) -> bool:
+    """self.<meth>(...) hands its index-th positional (or named) argument to a NinjaBuildElement (through statement factories too)."""
+    try:
+        _, _, fn = _resolved_method(ctx, meth)
+    except Undecided:
+        return False
+    ps = params(fn) + [a.arg for a in fn.args.kwonlyargs]
+    if isinstance(index, int):
+        if index >= len(params(fn)):
+            return False
+        index = ps[index]
+    if index not in ps:
         return False
     fl = Flow(fn, nested=False)
-    want = f'param:{ps[index]}'
+    want = f'param:{index}'
     for c in walk_no_nested(fn):
-        if isinstance(c, ast.Call) and (call_method(c) == 'NinjaBuildElement' or call_method(c) in ELEMENT_FEEDERS):
-            if any(want in fl.origins(a) for a in c.args):
+        if not isinstance(c, ast.Call):
+            continue
+        m = call_method(c)
+        if m == 'NinjaBuildElement' or m in ELEMENT_FEEDERS:
+            if any(want in fl.origins(a) for a in c.args) or any(want in fl.origins(k.value) for k in c.keywords):
+                return True
+        elif recv(c) == 'self' and m and m != meth and depth > 0 and _element_factory(ctx, m):
+            if any(want in fl.origins(a) and _builds_element_from(ctx, m, i, depth - 1) for i, a in enumerate(c.args)) \
+                    or any(k.arg and want in fl.origins(k.value) and _builds_element_from(ctx, m, k.arg, depth - 1) for k in c.keywords):
                 return True
     return False
 
@@ -1883,10 +1946,14 @@ def _consumed_names(ctx: RuleCtx, fn: FuncNode, loc: Locals) -> T.Tuple[T.Set[st
         elif m in ELEMENT_FEEDERS:
             for a in c.args:
                 deps |= {n.id for n in ast.walk(a) if isinstance(n, ast.Name)}
-        elif recv(c) == 'self' and m and m.startswith('generate_'):
+        elif recv(c) == 'self' and m and (m.startswith('generate_') or _element_factory(ctx, m)):
+            # an element-building helper / a statement factory of the class: the arguments it hands to the constructor are consumed
             for i, a in enumerate(c.args):
                 if _builds_element_from(ctx, m, i):
                     inputs |= {n.id for n in ast.walk(a) if isinstance(n, ast.Name)}
+            for k in c.keywords:
+                if k.arg and _element_factory(ctx, m) and _builds_element_from(ctx, m, k.arg):
+                    inputs |= {n.id for n in ast.walk(k.value) if isinstance(n, ast.Name)}
     for grp in (inputs, deps):
         for _ in range(3):
             for nm in list(grp):
